@@ -2029,6 +2029,10 @@ def removeslash(
         if self.request.path.endswith("/"):
             if self.request.method in ("GET", "HEAD"):
                 uri = self.request.path.rstrip("/")
+                if uri.startswith("//"):
+                    # A redirect to a path starting with two slashes would be
+                    # protocol-relative (to another host); collapse them.
+                    uri = "/" + uri.lstrip("/")
                 if uri:  # don't try to redirect '/' to ''
                     if self.request.query:
                         uri += "?" + self.request.query
@@ -2058,6 +2062,10 @@ def addslash(
         if not self.request.path.endswith("/"):
             if self.request.method in ("GET", "HEAD"):
                 uri = self.request.path + "/"
+                if uri.startswith("//"):
+                    # A redirect to a path starting with two slashes would be
+                    # protocol-relative (to another host); collapse them.
+                    uri = "/" + uri.lstrip("/")
                 if self.request.query:
                     uri += "?" + self.request.query
                 self.redirect(uri, permanent=True)
